@@ -6,6 +6,7 @@ from cv.rules import events_of
 from props import common, errscope
 
 TITLE = "Damage to one stored file is contained and never crashes the tool"
+TECHNIQUE = 'static analysis: summary-based taint from decoded data to panicking/allocating operations (separate value and discriminant taint), error-discipline classification, guards'
 EXPLANATION = (
     "Decided: (1) TAINT - data decoded from storage (fields of IndexEntry, Address, band Head/Tail, the archive "
     "header; bytes read; listings) never reaches a panicking operation in the bodies reachable from restore, "
